@@ -71,6 +71,59 @@ let print_str (s : n list) =
   Buffer.add_char buf '\n';
   print_string (Buffer.contents buf)
 
+(* JSON values in prefix notation: N | B 0/1 | I z | F hastrunc [z] is01(0 none,1 false,2 true)
+   | S str | A n item* | O n (str item)* *)
+let rec next_json c : json =
+  match next c with
+  | "N" -> JNull
+  | "B" -> JBool (next_bool c)
+  | "I" -> JInt (next_z c)
+  | "F" ->
+      let tr = if next_bool c then Some (next_z c) else None in
+      let b = match next_int c with 0 -> None | 1 -> Some false | _ -> Some true in
+      JFloat (tr, b)
+  | "S" -> JStr (next_str c)
+  | "A" ->
+      let n = next_int c in
+      let rec go i acc = if i = 0 then List.rev acc else go (i - 1) (next_json c :: acc) in
+      JArr (go n [])
+  | "O" ->
+      let n = next_int c in
+      let rec go i acc =
+        if i = 0 then List.rev acc
+        else
+          let k = next_str c in
+          let v = next_json c in
+          go (i - 1) ((k, v) :: acc)
+      in
+      JObj (go n [])
+  | t -> failwith ("bad json token " ^ t)
+
+let lit_ s = List.init (String.length s) (fun i -> n_of_int (Char.code s.[i]))
+
+let rec show_json (j : json) : n list =
+  let sp = [ n_of_int 32 ] in
+  match j with
+  | JNull -> lit_ "N"
+  | JBool b -> lit_ (if b then "B 1" else "B 0")
+  | JInt zv -> lit_ "I " @ str_of_Z zv
+  | JFloat (_, _) -> lit_ "F"
+  | JStr s ->
+      lit_ "S " @ str_of_Z (Z.of_nat (nat_of_int (List.length s)))
+      @ List.concat (List.map (fun cp -> sp @ str_of_Z (Z.of_N cp)) s)
+  | JArr l ->
+      lit_ "A " @ str_of_Z (Z.of_nat (nat_of_int (List.length l)))
+      @ List.concat (List.map (fun x -> sp @ show_json x) l)
+  | JObj l ->
+      lit_ "O " @ str_of_Z (Z.of_nat (nat_of_int (List.length l)))
+      @ List.concat
+          (List.map
+             (fun (k, v) ->
+               sp @ str_of_Z (Z.of_nat (nat_of_int (List.length k)))
+               @ List.concat (List.map (fun cp -> sp @ str_of_Z (Z.of_N cp)) k)
+               @ sp @ show_json v)
+             l)
+
 let world = ref (init_world true)
 let vans : bool option list ref = ref []
 let batans : z option ref = ref None
@@ -179,6 +232,35 @@ let handle line =
       (match utf8_encode s with
        | None -> print_str [ n_of_int 78 ]
        | Some s -> print_str (n_of_int 83 :: s))
+  | "PLOAD" ->
+      (* Persistence.load of a parsed file into an empty registry *)
+      let j = next_json c in
+      (match load_registry j [] with
+       | None -> print_str (lit_ "ERR")
+       | Some ns -> print_str (lit_ "OK" @ show_nodes ns))
+  | "PLOADW" ->
+      (* ... into the current world's registry *)
+      let j = next_json c in
+      (match load_registry j !world.w_nodes with
+       | None -> print_str (lit_ "ERR")
+       | Some ns -> print_str (lit_ "OK" @ show_nodes ns))
+  | "PDUMP" -> print_str (show_json (dump_registry !world.w_nodes))
+  | "PLEGACY" ->
+      let a = next_bool c in
+      let b = next_bool c in
+      print_str
+        (show_json (JObj (List.map (fun (k, nd) -> (str_of_Z k, legacy_node a b nd)) !world.w_nodes)))
+  | "CRASH" ->
+      (* CRASH before? n len: category of a crash point of save-in-place *)
+      let before = next_bool c in
+      let n = next_int c in
+      let len = next_int c in
+      let rec int_of_nat = function O -> 0 | S k -> 1 + int_of_nat k in
+      print_str
+        (str_of_Z
+           (z_of_int
+              (int_of_nat
+                 (crash_category (if before then None else Some (nat_of_int n)) (nat_of_int len)))))
   | "FL" ->
       (* FL guarded nops (S n c t tag | W n | B | E ok)* nnodes node* : run the flush/send
          race model, then quiesce; print written / buffer / sent as "n c t tag" groups *)
